@@ -1,6 +1,7 @@
 package main
 
 import (
+	"fmt"
 	"go/token"
 	"strings"
 
@@ -29,6 +30,7 @@ func runC13(c *Ctx) {
 	// shared rule: history/tree scanners stop only at the end of their input (rules_c05.go)
 	scannerVerdictRule(c, "R6")
 	c13SingleCommit(c)
+	c13ReadOnlyIndexScan(c)
 	fp := p.Fn("commands", "fsckPointer")
 	objs := p.Fn("commands", "doFsckObjects")
 	ptrs := p.Fn("commands", "doFsckPointers")
@@ -515,4 +517,25 @@ func c13SingleCommit(c *Ctx) {
 		c.Check(good, "R5", "single-ref-scan-does-not-walk:"+name, p.Pos(fn.Pos()), "the scan of one ref looks at that commit only (--no-walk)",
 			why+": the trees of all ancestor commits are scanned and problems that exist only in history are reported for the checked revision")
 	}
+}
+
+// c13ReadOnlyIndexScan (R3, fsck touches nothing it does not report): fsck's scan of the index must not refresh the
+// index — `git update-index --refresh` runs the clean filter over stat-dirty files, which writes objects into the
+// store (and re-creates deleted ones from the working tree). The scanner's refresh switch is the constant false at
+// the index scan used by fsck (only `git lfs status` refreshes).
+func c13ReadOnlyIndexScan(c *Ctx) {
+	p := c.P
+	fn := p.Fn("lfs", "revListIndex")
+	if fn == nil {
+		c.Missing("R3", "lfs.revListIndex", "not found")
+		return
+	}
+	n := 0
+	for _, ci := range CallsIn(fn, "lfs.NewDiffIndexScanner") {
+		n++
+		args := ci.Common().Args
+		bv, isC := ConstBool(args[2])
+		c.Check(isC && !bv, "R3", fmt.Sprintf("index-scan-does-not-refresh#%d", n), p.InstrPos(ci), "the index scan never refreshes the index", "the index scan behind fsck (and prune, fetch) asks for an index refresh: `git update-index --refresh` runs the clean filter on stat-dirty files, so `fsck --dry-run` adds objects to the store and re-creates deleted ones from unverified working-tree content")
+	}
+	c.AtLeast("R3", "diff-index scanners in revListIndex", n, 1)
 }
